@@ -518,6 +518,9 @@ func c11Enumerate(tier string, yield func(any)) {
 	}
 	for reason := 0; reason < 6; reason++ {
 		yield(&c11Case{Kind: "cli", N: reason})
+		for hist := 0; hist < 4; hist++ {
+			yield(&c11Case{Kind: "cliorder", N: reason, Strat: hist}) // reason doubles as the permutation of names (6 of each)
+		}
 		// the same with the subordinate's configuration file being a symbolic link (native filesystem)
 		yield(&c11Case{Kind: "cli", N: reason, Link: true})
 	}
@@ -622,6 +625,8 @@ func c11Exec(x *engine.Ctx, cc any) {
 		c11CLI(x, c)
 	case "clispell":
 		c11CLISpell(x, c)
+	case "cliorder":
+		c11CLIOrder(x, c)
 	}
 }
 
@@ -1017,6 +1022,87 @@ func c11FilesOne(x *engine.Ctx, base *c11Base, ents []c11Ent, strat int) {
 	}
 }
 
+// c11CLIOrder: "issuers are always generated before the entities they sign" on the binary, where the
+// order of generation is not the order of names: a settled chain root -> mid -> leaf whose three file
+// names are a permutation (c.N) of a-, b-, c-; then (c.Strat) the root's name is edited / the root's
+// artifact is deleted / the intermediate's name is edited / the root's name is edited and the leaf's
+// artifact deleted; one run with the default flags (answer y): exit 0, every certificate names and
+// verifies under the certificate its issuer has now, and one more run has nothing to do.
+func c11CLIOrder(x *engine.Ctx, c *c11Case) {
+	perms := [][3]string{{"a", "b", "c"}, {"a", "c", "b"}, {"b", "a", "c"}, {"b", "c", "a"}, {"c", "a", "b"}, {"c", "b", "a"}}
+	pm := perms[c.N%6]
+	names := []string{pm[0] + "-root", pm[1] + "-mid", pm[2] + "-leaf"}
+	d := &Dir{Certs: []*refcfg.CertCfg{
+		{Path: names[0] + ".yaml", Subject: "CN=order root", KeyAlg: "P-224"},
+		{Path: names[1] + ".yaml", Subject: "CN=order mid", KeyAlg: "P-224", Issuer: names[0]},
+		{Path: names[2] + ".yaml", Subject: "CN=order leaf", KeyAlg: "P-256", Issuer: names[1]},
+	}}
+	g := Generate(d, func(w *simfs.World) {
+		for i, n := range names {
+			w.Put(n+".pem", FixtureKeyPEM([]string{"P-224-0", "P-224-1", "P-256-0"}[i]))
+		}
+	}, drive.Default)
+	x.Nontrivial(fmt.Sprintf("cliorder %d %d", c.N, c.Strat))
+	if !g.Res.OK() {
+		x.Cap("cliorder: settling run failed: " + errStr(g.Res.Err()))
+		return
+	}
+	w := g.W
+	switch c.Strat {
+	case 0:
+		d.Certs[0].Subject = "CN=order root renamed"
+		w.Put(d.Certs[0].Path, RenderCfg(d.Certs[0].Path, d.Certs[0].Tree()))
+	case 1:
+		w.Remove(names[0] + ".pem")
+	case 2:
+		d.Certs[1].Subject = "CN=order mid renamed"
+		w.Put(d.Certs[1].Path, RenderCfg(d.Certs[1].Path, d.Certs[1].Tree()))
+	case 3:
+		d.Certs[0].Subject = "CN=order root renamed"
+		w.Put(d.Certs[0].Path, RenderCfg(d.Certs[0].Path, d.Certs[0].Tree()))
+		w.Remove(names[2] + ".pem")
+	}
+	res, err := drive.RunCLI(w, drive.Default, "y\n")
+	if err != nil {
+		x.Cap("cli: " + err.Error())
+		return
+	}
+	x.TraceValidated(1)
+	x.Transition(1)
+	what := []string{"root renamed", "root artifact deleted", "intermediate renamed", "root renamed and leaf artifact deleted"}[c.Strat]
+	if res.Exit != 0 {
+		x.Violation("C11/cli-order/exit", fmt.Sprintf("names %v, %s: exit %d: %s", names, what, res.Exit, short(res.Stdout, 400)))
+		return
+	}
+	var certs [3]*refx509.Cert
+	for i := range names {
+		a := ReadArtifact(w, d.Certs[i].Path)
+		if a.Cert == nil {
+			x.Violation("C11/cli-order/no-certificate", fmt.Sprintf("names %v, %s: %s has no certificate after the run", names, what, names[i]))
+			return
+		}
+		certs[i] = a.Cert
+	}
+	for i := 1; i < 3; i++ {
+		if err := VerifyChainLink(certs[i], certs[i-1]); err != nil {
+			x.Violation("C11/cli-order/subject-not-under-new-issuer", fmt.Sprintf("names %v, %s: %s under %s: %v", names, what, names[i], names[i-1], err))
+			return
+		}
+	}
+	before := w.Clone()
+	res2, err := drive.RunCLI(w, drive.Default, "n\n")
+	if err != nil {
+		x.Cap("cli: " + err.Error())
+		return
+	}
+	x.TraceValidated(1)
+	x.Transition(1)
+	if df := simfs.Diff(before, w); len(df) != 0 || strings.Contains(res2.Stdout, "Proceed") {
+		x.Violation("C11/cli-order/second-run-has-work", fmt.Sprintf("names %v, %s: the run after it wants to replace something (%v): %s", names, what, df, short(res2.Stdout, 300)))
+	}
+	x.Outcome("cli generation order")
+}
+
 // c11CLI: all 32 flag combinations on one world per reason, on the binary.
 func c11CLI(x *engine.Ctx, c *c11Case) {
 	base, err := c11GetBase()
@@ -1093,7 +1179,7 @@ func init() {
 	register(&engine.Check{
 		ID:          "C11",
 		Level:       "model_checking",
-		Rule:        "(0) the hash condition produced by real edits: a settled three-entity directory, one of 6 edits of the entity's or its profile's file (issuer moved to the other root, subject, serial, profile extension content, profile validity, own extension) or none x 8 strategies without generate-outdated/-all: regenerated iff generate-changed is on and something was edited, from the current files, nothing else touched. (1) db.PlanBulkUpdate on a synthetic db.Database: for an issuer/subject pair the full product of per-entity states (artifact {absent, cert+key, cert+CSR, key only, cert only} x stored hash {none, equal, different} x (certificate expired / valid / not yet valid) x (configured end before the certificate's end / after it but still past / future / far future) x config older / newer / same time stamp as the artifact) for both entities x issuer-vs-subject artifact time {<,=,>} x all 32 strategies; for every rooted forest on <=3 (quick) / <=4 (thorough) entities a 6-letter per-entity alphabet x all strict artifact-time orders + all-equal x 32 strategies (x 6 return-order permutations of roots/subscribers for n<=3). (2) the same pair states realised as files (hash line, PEM blocks, mtimes) on FsDb+simfs for all 225 artifact/hash combinations x config age x time relation x 32 strategies, followed by BulkUpdate (issuer written first, subject verifies under the issuer written in this run, nothing unplanned written). (3) the CLI binary with all 32 explicit flag combinations on one world per reason, and all 243 spellings of the five flags (unmentioned = default, given, given as =false; short and long forms) on three worlds, which pins the documented defaults (-m and -c on). (4) a settled chain whose root or intermediate is edited so that it is due but cannot be signed (misfitting signature algorithm / uncompilable extension) x 4 strategies: the run fails and no file at or below that entity changes. Oracle: the decision table transcribed from the statement with explicit don't-care cells. states = distinct abstract worlds, transitions = plans computed",
+		Rule:        "(0) the hash condition produced by real edits: a settled three-entity directory, one of 6 edits of the entity's or its profile's file (issuer moved to the other root, subject, serial, profile extension content, profile validity, own extension) or none x 8 strategies without generate-outdated/-all: regenerated iff generate-changed is on and something was edited, from the current files, nothing else touched. (1) db.PlanBulkUpdate on a synthetic db.Database: for an issuer/subject pair the full product of per-entity states (artifact {absent, cert+key, cert+CSR, key only, cert only} x stored hash {none, equal, different} x (certificate expired / valid / not yet valid) x (configured end before the certificate's end / after it but still past / future / far future) x config older / newer / same time stamp as the artifact) for both entities x issuer-vs-subject artifact time {<,=,>} x all 32 strategies; for every rooted forest on <=3 (quick) / <=4 (thorough) entities a 6-letter per-entity alphabet x all strict artifact-time orders + all-equal x 32 strategies (x 6 return-order permutations of roots/subscribers for n<=3). (2) the same pair states realised as files (hash line, PEM blocks, mtimes) on FsDb+simfs for all 225 artifact/hash combinations x config age x time relation x 32 strategies, followed by BulkUpdate (issuer written first, subject verifies under the issuer written in this run, nothing unplanned written). (3) the CLI binary with all 32 explicit flag combinations on one world per reason, and all 243 spellings of the five flags (unmentioned = default, given, given as =false; short and long forms) on three worlds, which pins the documented defaults (-m and -c on); a settled three-tier chain whose file names are each of the 6 permutations of a-, b-, c- (so that the order of names is not the order of issuing) x {root renamed, root artifact deleted, intermediate renamed, root renamed + leaf artifact deleted}: one default run of the binary, every certificate names and verifies under its issuer's current certificate, and the next run has nothing to do. (4) a settled chain whose root or intermediate is edited so that it is due but cannot be signed (misfitting signature algorithm / uncompilable extension) x 4 strategies: the run fails and no file at or below that entity changes. Oracle: the decision table transcribed from the statement with explicit don't-care cells. states = distinct abstract worlds, transitions = plans computed",
 		Bound:       map[string]string{"forest": "quick<=3 thorough<=4", "file layer": "2-entity chain"},
 		Assumptions: []string{"comparisons 'newer than its artifact' are not decided when the entity has no artifact file (don't-care)", "expiry is explored with certificates decades away from the wall clock"},
 		Budget:      budgets(quickBudget, thoroughBudget),
